@@ -53,13 +53,14 @@ fn build(variant: Variant, mat: &[f64], vars: &[usize], nvars: usize, loops: boo
 }
 
 /// Run `steps` time steps in a helper thread; Err on panic or hang.
-fn sample(variant: Variant, mat: &[f64], vars: &[usize], nvars: usize, loops: bool, steps: usize) -> Result<(), String> {
+fn sample(variant: Variant, mat: &[f64], vars: &[usize], nvars: usize, loops: bool, heatbath: bool, steps: usize) -> Result<(), String> {
     let (tx, rx) = std::sync::mpsc::channel();
     let mat = mat.to_vec();
     let vars = vars.to_vec();
     std::thread::spawn(move || {
         let r = catch(|| {
             if let Ok(Ok(mut q)) = build(variant, &mat, &vars, nvars, loops) {
+                q.set_do_heatbath(heatbath);
                 // a transverse-like constant single-site term on var 0 so that cluster updates may run
                 for _ in 0..steps {
                     q.timestep(1.0);
@@ -73,8 +74,8 @@ fn sample(variant: Variant, mat: &[f64], vars: &[usize], nvars: usize, loops: bo
     });
     match rx.recv_timeout(std::time::Duration::from_secs(20)) {
         Ok(Ok(())) => Ok(()),
-        Ok(Err(p)) => Err(format!("sampling panicked (loops={}): {}", loops, p)),
-        Err(_) => Err(format!("sampling hung >20s (loops={})", loops)),
+        Ok(Err(p)) => Err(format!("sampling panicked (loops={} heatbath={}): {}", loops, heatbath, p)),
+        Err(_) => Err(format!("sampling hung >20s (loops={} heatbath={})", loops, heatbath)),
     }
 }
 
@@ -228,8 +229,10 @@ fn run_case(variant: Variant, mat: &[f64], vars: &[usize], do_sample: bool) {
             }
             if do_sample {
                 for loops in [false, true] {
-                    if let Err(e) = sample(variant, mat, vars, nvars, loops, 25) {
-                        fail(e);
+                    for heatbath in [false, true] {
+                        if let Err(e) = sample(variant, mat, vars, nvars, loops, heatbath, 25) {
+                            fail(e);
+                        }
                     }
                 }
             }
